@@ -28,7 +28,7 @@ ASSUMPTIONS = [
     "Poisson schedule: only strict monotonicity is claimed (no distributional claim)",
 ]
 BUDGET = {"quick": 3000, "thorough": 20000}
-REQUIRED_CLASSES = {"straddles-boundary": 100, "weight-change": 100, "ramp-up": 50, "time-based": 300, "behind-schedule": 100}
+REQUIRED_CLASSES = {"straddles-boundary": 100, "weight-change": 100, "ramp-up": 50, "time-based": 300, "behind-schedule": 100, "ramp-up-with-allocations-from-the-real-allocator": 30}
 TOL = 1e-9
 
 
@@ -177,6 +177,8 @@ def run_case(case, obs):
             obs.check(_eq(got_wait, want_wait, 1e-9), "ramp-up", f"{tag}: first request handed out {got_wait} s after start, ramp-up says {want_wait}")
             if ramp:
                 obs.cls("ramp-up")
+                if case.get("via_allocator") is not None:
+                    obs.cls("ramp-up-with-allocations-from-the-real-allocator")
         # ------------------------------------------------------------------ pacing
         if tp is not None and n:
             sched = case.get("schedule") or "deterministic"
